@@ -188,6 +188,19 @@ void projection(vf::Ctx & c)
   VF_CHECK(c, el1 <= 1e-11, "inverse latitude error %.3g rad (lat=%.17g)", el1, lat);
   VF_CHECK(c, el2 <= 1e-11, "inverse longitude error %.3g rad (lon=%.17g lon0=%.17g)", el2, lon, s.lon0);
 
+  // (v') the inverse is a function of its argument only: a second point 0.05 .. 0.9 mm further north, inverted with the
+  // SAME converter object right after the first one, comes back as itself (not as its predecessor)
+  {
+    double step = (0.05 + 0.85 * std::fabs(std::sin(1e3 * lat))) * 1e-3;           // metres along the meridian
+    double lat2 = lat + step / 6.4e6;
+    Eigen::Vector2d P2 = fwd(cv, lat2, lon);
+    WGS84Coordinates b2 = cv.toWGS84(P2);
+    double e2 = std::fabs(b2.latitude - lat2);
+    c.maxStat("inverse-dlat-of-a-neighbouring-point[rad]", e2);
+    VF_CHECK(c, e2 <= 1e-11 && std::fabs(b2.longitude - lon) <= 1e-11,
+      "inverse of a point %.3g m north of the previous one (same converter) is off by %.3g rad in latitude", step, e2);
+  }
+
   // (vi) metamorphic: shifting lon and lon0 together; mirroring in the equator
   Setup sh = s; sh.lon0 = s.lon0 + shift;
   Eigen::Vector2d Ps = fwd(makeConverter(sh), lat, sh.lon0 + dlon);
